@@ -312,7 +312,10 @@ def run(case):
         x32 = x.astype(np.float32)
         (_o.mrc_write if ext == ".mrc" else _o.em_write)("map" + ext, x32)
         out.label(f"file_input:{ext}")
-        for name, fn, kw_ in (("lowpass", cryomap.lowpass, {"fourier_pixels": r, "gaussian": s}), ("highpass", cryomap.highpass, {"fourier_pixels": r, "gaussian": s})):
+        variants = [("lowpass", cryomap.lowpass, {"fourier_pixels": r, "gaussian": s}), ("highpass", cryomap.highpass, {"fourier_pixels": r, "gaussian": s})]
+        if r >= 2:
+            variants.append(("bandpass", cryomap.bandpass, {"lp_fourier_pixels": r, "hp_fourier_pixels": max(1, r // 2), "lp_gaussian": s, "hp_gaussian": 0}))
+        for name, fn, kw_ in variants:
             okf, rf = call(out, name + "(file)", lambda: fn("map" + ext, output_name="res" + ext, **kw_))
             oka, ra = call(out, name + "(array)", lambda: fn(x32.copy(), **kw_))
             if okf and oka:
